@@ -23,6 +23,7 @@ CHECKS = {
  "C03": ("Inductive step of the per-node budget machine (bidib_node_try_send / bidib_node_state_update incl. expiry and release of held messages) from an arbitrary valid node state with <=3 outstanding and <=2 held messages, all request/answer types, clock values; bounded histories from the real initial state.", "DESIGN 4/C03"),
 }
 ALL = ["C%02d" % i for i in range(1, 21)]
+CHECKS["C20"] = ("Real bidib_send_sys_reset step order (RESET first, features before SYS_ENABLE, then GO, occupancy query, initial values last); real bidib_state_set_board_features against a simulated bus: exactly the configured feature settings to each connected board, none elsewhere; real bidib_state_set_initial_values through the real high-level commands: one command per initial point / signal / peripheral and per train function per track output, encoded as the high-level command prescribes, nothing for disconnected boards.", "DESIGN 4/C20")
 NA = {}
 def main():
     for k in ALL:
